@@ -1,0 +1,119 @@
+//go:build verif
+
+package store
+
+// Contracts for the verification machinery in /verif (build tag "verif").
+
+// ---- the index of the disk cache (C05, C08) -------------------------------------------------
+// A data set is an optional snapshot at offset rdb.left plus log segments; segment k holds the
+// stream bytes [left_k, left_k + rt_k). What the index promises is decided here; the bytes in
+// the files are not (readers and writers are outside the subset).
+//
+//   segsWF      every segment object exists
+//   contiguous  segment k+1 starts where segment k ends (no hole inside the log)
+
+//@ func atomic.Int64.Load(x) (r)
+//@   trusted atomic load: the current value (the index functions below run under the data-set lock; a size that grows concurrently is read once)
+//@   modifies nothing
+//@   ensures value: r == x.v
+//@ func atomic.Int32.Load(x) (r)
+//@   trusted atomic load: the current value
+//@   modifies nothing
+//@   ensures value: r == x.v
+
+//@ pred segsWF(ds *dataSet): ds != nil && (forall i int :: 0 <= i && i < len(ds.aofSegs) ==> ds.aofSegs[i] != nil)
+//@ pred contiguous(ds *dataSet): forall i int :: 0 < i && i < len(ds.aofSegs) ==> ds.aofSegs[i].left == ds.aofSegs[i - 1].left + ds.aofSegs[i - 1].rtSize.v
+
+//@ func dataSetAof.Left
+//@   arith int
+//@   properties C05 C08
+//@   requires nonnil: a != nil
+//@   modifies nothing
+//@   ensures left: result == a.left
+//@ func dataSetAof.Right
+//@   arith int
+//@   properties C05 C08
+//@   requires nonnil: a != nil
+//@   modifies nothing
+//@   ensures right: result == a.left + a.rtSize.v
+//@ func dataSetAof.Size
+//@   arith int
+//@   properties C05 C08
+//@   requires nonnil: a != nil
+//@   modifies nothing
+//@   ensures size: result == a.size
+//@ func dataSetAof.Ref
+//@   arith int
+//@   properties C05 C08
+//@   requires nonnil: a != nil
+//@   modifies nothing
+//@   ensures refs: result == a.rwRef.v
+
+// ---- reopening: segments separated from the newest data by a hole are discarded (C08) -------
+//@ func dataSet.TruncateGap
+//@   arith int
+//@   properties C08
+//@   replay store_index
+//@   requires wf: segsWF(ds) && ds.aofMap != nil
+//@   modifies ds.aofSegs, ds.rdb, ds.aofMap, heap
+//@   ensures one_contiguous_range_is_kept: segsWF(ds) && contiguous(ds)
+//@   ensures newest_segment_is_kept: len(ds.aofSegs) <= old(len(ds.aofSegs)) && (old(len(ds.aofSegs)) > 0 ==> len(ds.aofSegs) > 0 && ds.aofSegs[len(ds.aofSegs) - 1] == old(ds.aofSegs[len(ds.aofSegs) - 1]))
+//@   ensures snapshot_before_a_hole_is_dropped: len(ds.aofSegs) < old(len(ds.aofSegs)) ==> ds.rdb == nil
+//@   ensures snapshot_kept_otherwise: len(ds.aofSegs) == old(len(ds.aofSegs)) ==> ds.rdb == old(ds.rdb)
+//@   loop 1:
+//@     invariant scanned_suffix_is_contiguous: 0 - 1 <= i && i < len(ds.aofSegs) && (len(ds.aofSegs) > 0 ==> 0 <= i) && ds.aofSegs == old(ds.aofSegs) && ds.rdb == old(ds.rdb) && segsWF(ds) && (forall k int :: i < k && k < len(ds.aofSegs) ==> ds.aofSegs[k].left == ds.aofSegs[k - 1].left + ds.aofSegs[k - 1].rtSize.v)
+
+// ---- an offset is reported valid only if a reader can be opened on it (C05) -----------------
+//   rdbAnchored  the log starts at or before the snapshot's offset (it continues the snapshot)
+//@ pred rdbAnchored(ds *dataSet): ds.rdb != nil && len(ds.aofSegs) > 0 ==> ds.aofSegs[0].left <= ds.rdb.left
+//@ pred nonNegative(ds *dataSet): forall i int :: 0 <= i && i < len(ds.aofSegs) ==> ds.aofSegs[i].left >= 0 && ds.aofSegs[i].rtSize.v >= 0
+//@ pred lastRight(ds *dataSet, r int64): len(ds.aofSegs) > 0 && r == ds.aofSegs[len(ds.aofSegs) - 1].left + ds.aofSegs[len(ds.aofSegs) - 1].rtSize.v
+
+//@ func dataSet.getRange
+//@   arith int
+//@   properties C05 C08
+//@   requires wf: segsWF(ds)
+//@   modifies nothing
+//@   ensures empty: ds.rdb == nil && len(ds.aofSegs) == 0 ==> ll == 0 - 1 && rr == 0 - 1
+//@   ensures log_only: ds.rdb == nil && len(ds.aofSegs) > 0 ==> ll == ds.aofSegs[0].left && (lastRight(ds, rr) || (rr == 0 && ds.aofSegs[len(ds.aofSegs) - 1].left + ds.aofSegs[len(ds.aofSegs) - 1].rtSize.v < 0))
+//@   ensures snapshot_only: ds.rdb != nil && len(ds.aofSegs) == 0 ==> ll == ds.rdb.left && rr == ds.rdb.left
+//@   ensures both_left: ds.rdb != nil && len(ds.aofSegs) > 0 ==> (ll == ds.rdb.left || ll == ds.aofSegs[0].left) && ll <= ds.rdb.left && ll <= ds.aofSegs[0].left
+//@   ensures both_right: ds.rdb != nil && len(ds.aofSegs) > 0 ==> (rr == ds.rdb.left || lastRight(ds, rr)) && rr >= ds.rdb.left && rr >= ds.aofSegs[len(ds.aofSegs) - 1].left + ds.aofSegs[len(ds.aofSegs) - 1].rtSize.v
+
+//@ func dataSet.InRange
+//@   arith int
+//@   properties C05
+//@   replay store_index
+//@   requires wf: segsWF(ds)
+//@   requires anchored: rdbAnchored(ds) && nonNegative(ds)
+//@   modifies nothing
+//@   ensures valid_means_snapshot_or_inside_the_log: result ==> (ds.rdb != nil && offset <= ds.rdb.left) || (len(ds.aofSegs) > 0 && ds.aofSegs[0].left <= offset && offset <= ds.aofSegs[len(ds.aofSegs) - 1].left + ds.aofSegs[len(ds.aofSegs) - 1].rtSize.v)
+
+//@ func dataSet.IndexAof
+//@   arith int
+//@   properties C05
+//@   replay store_index
+//@   requires wf: segsWF(ds) && contiguous(ds)
+//@   modifies nothing
+//@   ensures found_segment_holds_the_offset: result != nil ==> result.left <= offset && offset <= result.left + result.rtSize.v && (exists k int :: 0 <= k && k < len(ds.aofSegs) && ds.aofSegs[k] == result)
+//@   ensures not_found_means_outside_the_log: result == nil ==> len(ds.aofSegs) == 0 || offset < ds.aofSegs[0].left || offset > ds.aofSegs[len(ds.aofSegs) - 1].left + ds.aofSegs[len(ds.aofSegs) - 1].rtSize.v
+//@   loop 1:
+//@     invariant below_everything_scanned: 0 - 1 <= i && i < len(ds.aofSegs) && (i < len(ds.aofSegs) - 1 ==> offset <= ds.aofSegs[len(ds.aofSegs) - 1].left + ds.aofSegs[len(ds.aofSegs) - 1].rtSize.v ==> offset < ds.aofSegs[i + 1].left)
+
+// ---- size-triggered collection: the snapshot goes first, then the oldest segments (C05, C08) --
+// A snapshot that stays offered keeps the whole log behind it: no segment is collected while
+// the snapshot is kept, and only the oldest segments are ever collected.
+//@ func dataSet.gcLogs
+//@   arith int
+//@   properties C05 C08
+//@   replay store_index
+//@   requires wf: segsWF(ds) && ds.aofMap != nil
+//@   requires snapshot_size: ds.rdb != nil ==> ds.rdb.rdbSize >= 0
+//@   modifies ds.rdb, ds.aofSegs, heap
+//@   ensures kept_snapshot_keeps_every_segment: ds.rdb != nil ==> len(ds.aofSegs) == old(len(ds.aofSegs))
+//@   ensures snapshot_only_dropped_never_replaced: ds.rdb == nil || ds.rdb == old(ds.rdb)
+//@   ensures newest_segments_stay: len(ds.aofSegs) <= old(len(ds.aofSegs)) && (old(len(ds.aofSegs)) > 0 && len(ds.aofSegs) > 0 ==> ds.aofSegs[len(ds.aofSegs) - 1] == old(ds.aofSegs[len(ds.aofSegs) - 1]))
+//@   loop 1:
+//@     invariant scan: 0 - 1 <= aofLast && aofLast < len(ds.aofSegs) && ds.aofSegs == old(ds.aofSegs) && ds.rdb == old(ds.rdb) && rdb == ds.rdb && segsWF(ds)
+//@   loop 2:
+//@     invariant oldest_first: z == 0 && aofLast < len(ds.aofSegs) && (ds.rdb == nil || (aofLast < 0 && ds.rdb == old(ds.rdb) && len(ds.aofSegs) == old(len(ds.aofSegs)))) && segsWF(ds) && len(ds.aofSegs) <= old(len(ds.aofSegs)) && (old(len(ds.aofSegs)) > 0 && len(ds.aofSegs) > 0 ==> ds.aofSegs[len(ds.aofSegs) - 1] == old(ds.aofSegs[len(ds.aofSegs) - 1]))
